@@ -15,6 +15,13 @@
    As soon as the implementation's word differs from the model's, the state is no longer known:
    that call is still judged on its result, the rest of the line is not judged.
 
+   Between transactions, while the state is known:
+     dump   : the tables read through an independent connection must be the tables of the meaning
+              (every call so far had the effect of its meaning in the model: `effect` above) — `dump:effect`
+     grow:k : overlapping readers change nothing and read what a sequential reader reads, and every
+              connection of the pool is the same index: answer `ok` — otherwise `grow:<answer>`
+     client:v / reopen : the same database behind any variant of the client — `client:<answer>`
+
    Answer: `ok trivial` | `ok nontrivial calls=<n>` | `violation <token index>:<Method>:<result|effect> …`. -/
 import GluonModel.Driver.DDb
 
@@ -62,6 +69,19 @@ def judgeTok (full : Bool) (st : JudgeSt) (tokImpl : String × String) : JudgeSt
       else if !sameEffect full mr sr then { st' with findings := st'.findings.push s!"{st.s.pos}:{name}:effect" }
       else st'
     | _, _ => st'
+  | .outside =>
+    let modelW := st'.s.out.back?.getD ""
+    let kind := if tok == "dump" then some "dump" else if tok == "reopen" then some "client"
+      else match tok.splitOn ":" with
+        | ["grow", _] => some "grow"
+        | ["client", _] => some "client"
+        | _ => none
+    match kind with
+    | none => st'
+    | some k =>
+      if implW == modelW then st' else
+      let why := if k == "dump" then "effect" else implW
+      { st' with trusted := false, findings := st'.findings.push s!"{st.s.pos}:{k}:{why}" }
   | _ => st'
 
 /-- `judge-c08-db <mode> <token>* => <implementation word>*` -/
